@@ -43,7 +43,7 @@ DEPTH2_QUICK = ['char', 'gchar', 'unsigned char', 'int', 'guint8', 'gsize', 'voi
                 'gboolean', 'FooInt']
 DEPTH3 = ['char', 'gchar', 'void', 'gpointer', 'int', 'guchar']
 VFUNC_QUICK = ['int', 'char', 'gpointer', 'gconstpointer', 'void', 'FooRec', 'FooCb', 'GList', 'guint8']
-DIR_BASES = ['int', 'char', 'gchar', 'guint8', 'double', 'gboolean', 'FooRec', 'FooOpq', 'FooUni', 'FooEn', 'FooCb',
+DIR_BASES = ['int', 'char', 'gchar', 'guint8', 'double', 'gboolean', 'FooRec', 'FooOpq', 'FooUni', 'FooRecAlias', 'FooUniAlias', 'FooEn', 'FooCb',
              'FooInt', 'gpointer', 'void', 'GList', 'GHashTable', 'GByteArray', 'GObject', 'GValue', 'GVariant',
              'GQuark', 'XUnknown', 'GStrv']
 
@@ -59,6 +59,8 @@ PRELUDE = {
     'FooCb': lambda: [Callback('FooCb', 'void', [('int', 'x'), ('gpointer', 'user_data')])],
     'FooInt': lambda: [Typedef('FooInt', 'int')],
     'FooStr': lambda: [Typedef('FooStr', 'char *')],
+    'FooRecAlias': lambda: [Typedef('FooRecAlias', 'FooRec')],
+    'FooUniAlias': lambda: [Typedef('FooUniAlias', 'FooUni')],
     'FooName': lambda: [Typedef('FooName', M.CONSTPTR_TARGETS['FooName'])],
     'FooGName': lambda: [Typedef('FooGName', M.CONSTPTR_TARGETS['FooGName'])],
     'FooConstRec': lambda: [Typedef('FooConstRec', M.CONSTPTR_TARGETS['FooConstRec'])],
@@ -91,8 +93,10 @@ def case_needs(case):
         base = case['sp']['base']
         if base in M.LOCAL:
             names.add(base)
-            if base == 'FooConstRec':
+            if base in ('FooConstRec', 'FooRecAlias'):
                 names.add('FooRec')
+            if base == 'FooUniAlias':
+                names.add('FooUni')
         full = base in M.FOREIGN
         if case.get('pos') in ('mparam', 'mret') or case.get('host') == 'method':
             names.add('FooRec')
@@ -544,6 +548,11 @@ def judge_dir(case, host, j):
     if case['ann'] == 'out caller-allocates' and not ca or case['ann'] == 'out callee-allocates' and ca:
         j.unspec += 1
         return ('alloc-not-applied', direction, ca)
+    if case['ann'] == 'out':
+        want_ca = M.bare_out_caller_allocates(sp)
+        j.eq('param:caller-allocates (bare out)', want_ca, p.get('caller-allocates'))
+        if want_ca is not None:
+            ca = want_ca == '1'
     j.eq('param:transfer-ownership (%s%s)' % (direction, ', caller-allocates' if ca else ''),
          M.transfer_param(direction, ca), p.get('transfer-ownership'))
     tf = tel_facts(p.type_el())
